@@ -209,6 +209,8 @@ def model_script(case, trans):
     out = ["case " + case.name]
     if "include_disallowed" in case.header:
         out.append("incl 1")
+    if any(h.startswith("topoflag ") and "no_memattrs" in h.split(" ")[1:] for h in case.header):
+        out.append("nomem 1")
     if st is not None:
         out += table_model_lines(st, stmap)
     out.append("start")
@@ -301,6 +303,9 @@ class Ref:
         self.flags = set()
         self.stats = Counter()
         # mirror of the C-side cache state, only used to recognise calls with undefined behaviour
+        self.dupos_attrs = set()   # attributes holding a target whose (type, os_index) is not unique: known finding, model diff only
+        self.strict_dupos = False  # corpus/c14/07 pins that finding: judge it there
+        self.nomem = False   # topology loaded with HWLOC_TOPOLOGY_FLAG_NO_MEMATTRS: no predefined attributes, user ids start at 0
         self.incl = False    # topology loaded with HWLOC_TOPOLOGY_FLAG_INCLUDE_DISALLOWED (header line include_disallowed)
         self.infos = {}      # NUMA gp -> {info name: value} given by `info` header lines (exported/imported by XML)
         self.load_env = {}   # memory-tier variables set while the synthetic topology was loaded
@@ -311,7 +316,7 @@ class Ref:
 
     def touch(self, id_):
         """the C code reaches `if (!CACHE_VALID) refresh` for this attribute"""
-        if id_ >= 2 and not self.valid.get(id_, True):
+        if not self.isconv(id_) and not self.valid.get(id_, True):
             self.valid[id_] = True
             for tg in self.ent[id_]:
                 tg.pending = False
@@ -332,8 +337,20 @@ class Ref:
     def numa(self):
         return self.topo.of_type(self.NUMA)
 
+    def isconv(self, id_):
+        """Capacity / Locality (ids 0 and 1 of the predefined attributes; they do not exist under NO_MEMATTRS)"""
+        return not self.nomem and id_ < 2
+
+    @property
+    def nconv(self):
+        return 0 if self.nomem else 2
+
     def conv(self, id_, o):
         return o.mem if id_ == 0 else popcount(o.cpuset)
+
+    def dup_os(self, o):
+        """another object of the same type has the same os_index (never true for NUMA nodes and PUs)"""
+        return o.os != -1 and any(x.type == o.type and x.os == o.os and x.gp != o.gp for x in self.topo.objs)
 
     def find(self, id_, gp):
         for tg in self.ent.get(id_, []):
@@ -342,10 +359,10 @@ class Ref:
         return None
 
     def attr_unchecked(self, id_):
-        return self.internal or any(i == id_ for (i, g) in self.unchecked)
+        return self.internal or id_ in self.dupos_attrs or any(i == id_ for (i, g) in self.unchecked)
 
     def pair_unchecked(self, id_, gp):
-        return self.internal or (id_, gp) in self.unchecked
+        return self.internal or id_ in self.dupos_attrs or (id_, gp) in self.unchecked
 
     def p_id(self, s):
         return p_u64(s, 0xffffffff)
@@ -373,8 +390,10 @@ class Ref:
         raise BadCase(s)
 
     def cands(self, id_, init, for_best=False):
-        if id_ < 2:
+        if self.isconv(id_):
             return [(o.gp, self.conv(id_, o)) for o in self.numa()]
+        if id_ >= len(self.attrs):
+            return []
         fl, res = self.attrs[id_][1], []
         for tg in self.ent[id_]:
             if fl & NI:
@@ -446,7 +465,10 @@ class Ref:
     def retopo(self, topo, how="restrict"):
         self.unchecked |= self.taint
         self.hazard.clear()
-        for id_ in range(2, len(self.attrs)):
+        if how == "xml" and self.nomem:
+            # the importing topology has NO_MEMATTRS too: hwloc__xml_import_memattr ignores every attribute
+            self.attrs, self.ent, self.valid, self.cnt, self.alloc = [], {}, {}, {}, {}
+        for id_ in range(self.nconv, len(self.attrs)):
             if how == "xml":
                 # since /repo 16e3604 the export refreshes every attribute first (hwloc__xml_export_memattrs):
                 # targets entered by os_index get their gp_index, stale entries and out-of-root cpusets are dropped
@@ -555,10 +577,19 @@ class Ref:
             return fail("set")
         if init is not None and not valid_init(init):
             return fail("set")
-        if id_ >= len(self.attrs) or id_ < 2:
+        if id_ >= len(self.attrs) or self.isconv(id_):
             return fail("set")
         if self.attrs[id_][1] & NI and init is None:
             return fail("set")
+        if self.dup_os(tgt) and not self.strict_dupos:
+            # known finding (corpus/c14/07): targets of one type sharing an os_index (cores of different packages in
+            # real machines' XML) are confused by hwloc__memattr_get_target; such attributes are left to the model diff
+            def ap(r, tab):
+                self.flags.add("dupos")
+                self.stats["dup_os_index_targets"] += 1
+                self.dupos_attrs.add(id_)
+                self.do_set(id_, tgt.gp, tgt.type, init, value)
+            return Exp("R set rc=0 err=OK", apply=ap)
         return Exp("R set rc=0 err=OK", apply=lambda r, tab: self.do_set(id_, tgt.gp, tgt.type, init, value))
 
     def x_iset(self, t):
@@ -613,9 +644,9 @@ class Ref:
         if flags or tgt is None or id_ >= len(self.attrs):
             return fail("get")
         ok = lambda v, **kw: Exp("R get rc=0 err=OK v=%d" % v, info=kw)
-        if id_ == 0:
+        if id_ == 0 and not self.nomem:
             return ok(tgt.mem) if tgt.type == self.NUMA else fail("get")
-        if id_ == 1:
+        if id_ == 1 and not self.nomem:
             return ok(popcount(tgt.cpuset)) if tgt.own else fail("get")
         return self._touching(id_, self._get2(id_, tgt, init, ok))
 
@@ -640,7 +671,7 @@ class Ref:
         id_, init, flags, mx, tnull, wv = self.p_id(t[1]), self.p_loc(t[2]), p_u64(t[3]), p_u64(t[4], 4096), p_u64(t[5]), p_u64(t[6])
         if flags or (mx and tnull) or id_ >= len(self.attrs):
             return fail("targets")
-        if id_ >= 2 and self.attr_unchecked(id_):
+        if not self.isconv(id_) and self.attr_unchecked(id_):
             return self._touching(id_, Exp(None))
         c = self.cands(id_, init)
         items = " ".join("%d:%s" % (g, v if wv else "-") for g, v in c[:mx])
@@ -672,7 +703,7 @@ class Ref:
         id_, init, flags = self.p_id(t[1]), self.p_loc(t[2]), p_u64(t[3])
         if flags or id_ >= len(self.attrs):
             return fail("bestt")
-        if id_ >= 2 and self.attr_unchecked(id_):
+        if not self.isconv(id_) and self.attr_unchecked(id_):
             return self._touching(id_, Exp(None))
         c = self.cands(id_, init, for_best=True)
         b = self.best(c, self.attrs[id_][1])
@@ -846,6 +877,9 @@ class Ref:
         numa = self.numa()
         subs = {}
         self.incl = "include_disallowed" in header
+        if any(h.startswith("topoflag ") and "no_memattrs" in h.split(" ")[1:] for h in header):
+            self.nomem = True
+            self.attrs, self.ent = [], {}
         for h in header:
             f = h.split(" ")
             if f[0] == "info" and len(f) == 4 and f[1].isdigit() and int(f[1]) < len(numa):
@@ -855,7 +889,7 @@ class Ref:
                 self.load_env[k] = v
             elif f[0] == "subtype" and len(f) == 3 and f[1].isdigit() and int(f[1]) < len(numa):
                 subs[numa[int(f[1])].gp] = f[2]
-        if not self.load_env or any(h.split(" ")[0] in ("pre_restrict",) for h in header):
+        if not self.load_env or self.nomem or any(h.split(" ")[0] in ("pre_restrict",) for h in header):
             return []
         # at synthetic load no node has a subtype, info or memattr value yet
         exp = tiers_reference([(n.gp, n.os, "-", {}, 0, 0) for n in numa], self.load_env, force=False)
@@ -900,7 +934,7 @@ class Ref:
 
     def judge_tiers(self, before, tab, mlines, env, xml):
         """compare subtypes (T table) and MemoryTier / MemoryTiersNr (M lines) with tiers_reference()."""
-        if tab is None:
+        if tab is None or self.nomem:
             return []
         if self.flags & {"overlap", "outside", "internal"}:
             self.stats["tiers_unchecked_tainted"] += 1
@@ -1193,6 +1227,7 @@ def default_nodeset_algo(nodes, root, index_quirk):
 def spec_eval(case, trans, types=None):
     """(case script, parsed C transcript) -> ([(kind, step, message)], Ref)"""
     ref = Ref(types)
+    ref.strict_dupos = case.meta.get("topo") == "dup-os-index"
     st = trans.start_table()
     if st is None:
         return [("no-table", -1, "no topology table after start (synthetic description failed to load?)")], ref
@@ -1489,7 +1524,7 @@ class OpGen:
     def __init__(self, rng, ref, stream):
         self.rng, self.ref, self.stream = rng, ref, stream
         self.pool = rng.sample([1, 2, 3, 5, 8, 10, 20, 50, 100, 1000], 3)
-        self.focus = rng.sample(range(2, 8), 2)
+        self.focus = rng.sample(range(2, 8), 2) if not ref.nomem else []
         self.names = ["foo", "bar", "baz", "Qux", "Bandwidth2", "x1", "Capacity2", "lat"]
         self.restricts = 0
         self.gone = 0
@@ -1546,9 +1581,9 @@ class OpGen:
         rng, attrs = self.rng, self.ref.attrs
         if rng.random() < 0.08:
             return rng.choice([0, 1])
-        ids = self.focus + list(range(8, len(attrs)))
+        ids = self.focus + list(range(8, len(attrs))) if not self.ref.nomem else (list(range(len(attrs))) or [0])
         if want_ni is not None:
-            sel = [i for i in ids if bool(attrs[i][1] & NI) == want_ni]
+            sel = [i for i in ids if i < len(attrs) and bool(attrs[i][1] & NI) == want_ni]
             ids = sel or ids
         used = [i for i in ids if self.ref.ent.get(i)]
         if used and rng.random() < 0.6:
@@ -1562,7 +1597,10 @@ class OpGen:
             return rng.choice(ents).gp
         if rng.random() < 0.85:
             return rng.choice(self.ref.numa()).gp
-        return rng.choice(t.objs).gp
+        o = rng.choice(t.objs)
+        if self.ref.dup_os(o) and rng.random() < 0.9:      # mostly avoid the known os_index confusion (corpus 07)
+            return rng.choice(self.ref.numa()).gp
+        return o.gp
 
     def maxof(self, total):
         return self.rng.choice([0, 1, max(total - 1, 0), total, total + 1])
@@ -1628,18 +1666,18 @@ class OpGen:
         rng, attrs = self.rng, self.ref.attrs
         used = [a[0] for a in attrs]
         fresh = [n for n in self.names if n not in used]
-        name = rng.choice(fresh) if fresh and rng.random() < 0.7 else rng.choice(used)
+        name = rng.choice(fresh) if fresh and (not used or rng.random() < 0.7) else rng.choice(used or self.names)
         flags = rng.choice([1, 2, 5, 6]) if rng.random() < 0.75 else rng.choice([0, 3, 7, 8, 16])
         return "reg %s %d" % (name, flags)
 
     def g_set(self):
         id_ = self.pick_id()
         gp = self.pick_target(id_, prefer_existing=self.rng.random() < 0.5)
-        return "set %d %d %s 0 %d" % (id_, gp, self.set_init(id_, gp) if id_ >= 2 else "-", self.value())
+        return "set %d %d %s 0 %d" % (id_, gp, self.set_init(id_, gp) if not self.ref.isconv(id_) and id_ < len(self.ref.attrs) else "-", self.value())
 
     def g_get(self):
         id_ = self.pick_id()
-        gp = self.pick_target(id_) if id_ >= 2 or self.rng.random() < 0.8 else self.rng.choice(self.ref.topo.objs).gp
+        gp = self.pick_target(id_) if not self.ref.isconv(id_) or self.rng.random() < 0.8 else self.rng.choice(self.ref.topo.objs).gp
         return "get %d %d %s 0" % (id_, gp, self.query_init(id_, gp))
 
     def g_targets(self):
@@ -1795,7 +1833,7 @@ class OpGen:
     def g_iset(self):
         rng, ref = self.rng, self.ref
         id_ = self.pick_id()
-        if id_ < 2 and rng.random() < 0.7:
+        if id_ < 2 and rng.random() < 0.7 and self.focus:
             id_ = rng.choice(self.focus)
         n = rng.choice(ref.numa())
         ty = ref.NUMA
@@ -1906,7 +1944,7 @@ def forced_tiers(rng, oss):
     return ";".join("%s=%s" % (fset(sum(1 << o for o in p)), rng.choice(TIER_WORDS)) for p in parts if p)
 
 
-def gen_header(rng, s, name, force=None, hetero=False, tiers=False, allow=False):
+def gen_header(rng, s, name, force=None, hetero=False, tiers=False, allow=False, nomem=False):
     """case / env / synth / pre_restrict / misc / mem / subtype / info / start.  Returns (topokind, Topo)"""
     kind, desc = pick_topology(rng)
     alts = []
@@ -1918,6 +1956,13 @@ def gen_header(rng, s, name, force=None, hetero=False, tiers=False, allow=False)
         kind, desc = "scripted", force
     s.send("case " + name)
     xmlin = None
+    if nomem or (not force and rng.random() < 0.1):
+        fl = [f for f in ("no_distances", "no_cpukinds") if rng.random() < 0.4]
+        if nomem or rng.random() < 0.3:
+            fl.append("no_memattrs")
+        if fl:
+            s.send("topoflag " + " ".join(fl))
+            kind += "+" + "+".join(fl)
     if allow or (not force and rng.random() < 0.12):
         s.send("include_disallowed")
         kind += "+incl"
@@ -2001,15 +2046,21 @@ def gen_case(rng, proc, name, stream, first=False):
         force = None
         if stream in ("uninit", "dupfree"):
             force = rng.choice(["pack:2 [numa] core:2 pu:1", "pack:3 [numa(memory=512)] core:2 pu:2", "numa:2 core:2 pu:1"])
-        kind, topo = gen_header(rng, s, name, force, hetero=(stream == "hetero"), tiers=(stream == "tiers"), allow=(stream == "allow"))
+        kind, topo = gen_header(rng, s, name, force, hetero=(stream == "hetero"), tiers=(stream == "tiers"), allow=(stream == "allow"), nomem=(stream == "nomem"))
         ref = Ref(proc.types)
         ref.topo = topo
-        ref.read_header([l for l in s.script if l.split(" ")[0] in ("info", "env", "subtype", "pre_restrict", "include_disallowed")], None)
+        ref.read_header([l for l in s.script if l.split(" ")[0] in ("info", "env", "subtype", "pre_restrict", "include_disallowed", "topoflag")], None)
         og = OpGen(rng, ref, stream)
         ops = []
         if first:
             for i in range(9):
                 ops += ["getname %d" % i, "getflags %d" % i]
+        if ref.nomem:
+            # no predefined attributes: the application's own attributes take ids 0, 1, 2, ... (both kinds, both orders)
+            fl = [1, 2, 5, 6]
+            rng.shuffle(fl)
+            for j, f in enumerate(fl[:rng.randint(2, 4)] + ([rng.choice([5, 6])] if rng.random() < 0.5 else [])):
+                ops.append("reg u%d %d" % (j, f))
         if stream == "uninit":
             numa = ref.numa()[0]
             objs = [o for o in topo.objs if o.type in (proc.types["core"], proc.types["pu"])][:2]
